@@ -99,7 +99,7 @@ def r2_counts_and_margin(ctx):
             okmiss = isinstance(miss, ast.ListComp) and [bool_key(Normalizer(None, inline=False).guard(t)) for t in miss.generators[0].ifs] == [f"not in({miss.generators[0].target.id}, {b}.ranking)"] \
                 and astx.is_name(miss.elt, miss.generators[0].target.id)
             cl = astx.unique_def(f.node, astx.u(miss.generators[0].iter)) if okmiss and isinstance(miss.generators[0].iter, ast.Name) else None
-            okmiss = okmiss and cl is not None and astx.u(cl) == f"[{{cand}} for cand in {f.params[1]}.candidates]".replace("cand", cl.generators[0].target.id if isinstance(cl, ast.ListComp) else "cand")
+            okmiss = okmiss and cl is not None and astx.u(cl) == astx.A(f"[{{cand}} for cand in {f.params[1]}.candidates]")
 
             def rename(e):
                 if astx.u(e) == f"{b}.weight":
@@ -277,7 +277,7 @@ def r3_tiers(ctx):
     for sc in elect.state_ctor_calls(prog, f):
         kw = {k: astx.u(astx.unique_def(f.node, v.id) if isinstance(v, ast.Name) else v) for k, v in elect.state_kwargs(prog, sc).items()}
     rc = [astx.u(c.args[0]) for c in astx.calls_in(f.node, "remove_cand")]
-    good = tv is not None and kw.get("elected") == f"(frozenset({tv}[0]),)" and kw.get("remaining") == f"tuple([frozenset(s) for s in {tv}[1:]])" and rc == [f"list({tv}[0])"]
+    good = tv is not None and kw.get("elected") == f"(frozenset({tv}[0]),)" and kw.get("remaining") == astx.A(f"tuple([frozenset(s) for s in {tv}[1:]])") and rc == [f"list({tv}[0])"]
     ctx.check(good, f, f.node, "DominatingSets elects exactly tier 0, keeps tiers[1:] in order, removes tier 0", str(kw), f"DominatingSets records {kw}, removes {rc}")
     f = prog.find_func("CondoBorda._run_step")
     tv = None
@@ -291,7 +291,7 @@ def r3_tiers(ctx):
     if sel and tv:
         rk = sel[0].args[0]
         rd = astx.unique_def(f.node, rk.id) if isinstance(rk, ast.Name) else rk
-        good = rd is not None and astx.u(rd) == f"tuple([frozenset(s) for s in {tv}])"
+        good = rd is not None and astx.u(rd) == astx.A(f"tuple([frozenset(s) for s in {tv}])")
     ctx.check(good, f, sel[0] if sel else f.node, "CondoBorda selects from the tiers in their order", "", "CondoBorda does not pass the tiers in order to the selector")
 
 
